@@ -33,8 +33,8 @@ from .. import tlc
 NOBODY = 65534
 P_TMPL, P_COPY, P_T1, P_T2, P_X = 1, 2, 3, 4, 5
 EXTRA_STEM = "c12extra"
-CONSTS = {"GenFiles": "{1, 2, 3, 4}", "OtherFiles": "{5}", "Modes": "{292, 420, 384}", "Variants": "{0, 1, 2, 3}", "ChmodGate": "TRUE",
-          "CopyGate": "TRUE", "Truncates": "TRUE", "Privileged": "FALSE", "OptsSel": '"all"', "EnvOn": "TRUE", "Record": "FALSE",
+CONSTS = {"GenFiles": "{1, 2, 3, 4}", "OtherFiles": "{5}", "Modes": "{292, 420, 384}", "Variants": "{0, 1, 2, 3, 4, 7, 8}", "ChmodGate": "TRUE",
+          "CopyGate": "TRUE", "Truncates": "TRUE", "PPOrder": '"program_first"', "Privileged": "FALSE", "OptsSel": '"all"', "EnvOn": "TRUE", "Record": "FALSE",
           "MaxSteps": "0"}
 FOREIGN = {
     "long": b"/* a foreign file: nnvg did not write this */\n" * 2400,      # longer than anything generated here
@@ -50,11 +50,19 @@ VARIANT_ARGS = {
     1: ["--enable-serialization-asserts"],
     2: ["--pp-max-emptylines", "0"],
     3: ["--pp-trim-trailing-whitespace"],
-    4: "RUNPROGRAM",
+    4: ("RUNPROGRAM", "inplace"),     # --pp-run-program: an editor that appends in place
+    7: ("RUNPROGRAM", "replace"),     # ... an editor that saves atomically: temp file + rename (new inode, mode 0o666 & ~umask)
+    8: ("RUNPROGRAM", "noop"),        # ... a program that leaves the file alone
     5: ["--enable-serialization-asserts", "--pp-trim-trailing-whitespace", "--pp-max-emptylines", "1"],
     6: ["--enable-override-variable-array-capacity"],
 }
 LPP_VARIANTS = {2, 3, 5}
+RP_VARIANTS = {4, 7, 8}
+RP_SCRIPTS = {
+    "inplace": "#!/bin/sh\nprintf '// C12 harness: pp-run-program was here\\n' >> \"$1\"\n",
+    "replace": "#!/bin/sh\nt=\"$1.c12tmp\"\ncat \"$1\" > \"$t\" && printf '// C12 harness: saved atomically\\n' >> \"$t\" && mv -f \"$t\" \"$1\"\n",
+    "noop": "#!/bin/sh\nexit 0\n",
+}
 
 DSDL = {
     "small": ("ns", {
@@ -168,6 +176,12 @@ def _cli_in_this_process(argv, root, lang, extra):
                     p = os.fspath(p)
                     if p.startswith(prefix):
                         events.append(["chmod", p[len(prefix):], mode & 0o7777])
+            elif ev == "subprocess.Popen":
+                a = args[1]
+                if isinstance(a, (list, tuple)) and a and isinstance(a[-1], (str, os.PathLike)):
+                    p = os.fspath(a[-1])
+                    if p.startswith(prefix):
+                        events.append(["exec", p[len(prefix):], 0])
             elif ev in ("os.remove", "os.rename", "os.truncate", "os.link", "os.symlink", "os.chown", "os.rmdir", "shutil.copyfile"):
                 p = args[1] if ev in ("shutil.copyfile", "os.link", "os.symlink") else args[0]
                 if isinstance(p, (str, os.PathLike)):
@@ -250,6 +264,7 @@ def run_history(job, wdir):
                 if os.path.lexists(p):
                     os.unlink(p)
         o["snap"] = snapshot(root)
+        o["ino"] = {r: os.lstat(os.path.join(root, r)).st_ino for r in o["snap"]}
         obs.append(o)
     _force_rmtree(root)
     return {"hid": job["hid"], "obs": obs}
@@ -295,9 +310,11 @@ class Sandbox:
         self.extra = self.base / "res" / (EXTRA_STEM + ".h")
         self.extra.write_text(EXTRA_TEXT)
         os.chmod(self.extra, 0o644)
-        self.rp = self.base / "res" / "rp.sh"
-        self.rp.write_text("#!/bin/sh\nprintf '// C12 harness: pp-run-program was here\\n' >> \"$1\"\n")
-        os.chmod(self.rp, 0o755)
+        self.rp = {}
+        for k, text in RP_SCRIPTS.items():
+            self.rp[k] = self.base / "res" / ("rp_%s.sh" % k)
+            self.rp[k].write_text(text)
+            os.chmod(self.rp[k], 0o755)
         self.nbatch = 0
         self.is_root = os.geteuid() == 0
         self.warm_up()
@@ -324,7 +341,7 @@ class Sandbox:
         self.py_ok = True
         jobs = []
         for lang in ("c", "cpp", "py"):
-            for v in (0, 5, 4):
+            for v in (0, 5, 4, 7):
                 for extra in (None, str(self.extra)):
                     if extra and lang == "py":
                         continue
@@ -421,8 +438,8 @@ class Sandbox:
         if o["gs"] != "asneeded" or style & 2:
             a += ["--generate-support", GS_FLAG[o["gs"]]]
         va = VARIANT_ARGS[o["v"]]
-        if va == "RUNPROGRAM":
-            va = ["--pp-run-program", "/bin/sh", "--pp-run-program-arg=" + str(self.rp)]
+        if isinstance(va, tuple):
+            va = ["--pp-run-program", "/bin/sh", "--pp-run-program-arg=" + str(self.rp[va[1]])]
         a += va
         a.append(self.ns_root(ns))
         return a
@@ -532,7 +549,14 @@ class Campaign:
         return self.cid[h]
 
     # ---- fresh references
-    def need_fresh(self, stims):
+    def satisfiable(self, k):
+        """the options can be satisfied at all: the run into an empty directory succeeds - for the requested --file-mode or,
+        failing that, for another one (the requested permission bits must not decide whether a run completes)"""
+        if self.fresh[k]["ok"]:
+            return True
+        return any(fr["ok"] for k2, fr in self.fresh.items() if k2[:4] == k[:4] and k2[4][1:] == k[4][1:])
+
+    def need_fresh(self, stims, siblings=True):
         need = {}
         base = {"fm": 0o444, "no": False, "omit": False, "gs": "asneeded", "v": 0}
         for s in stims:
@@ -574,8 +598,31 @@ class Campaign:
             order += [r for r in sorted(files) if r not in order]
             lpp = not any(e[0] == "copyfile" for e in (a["ev"] or []))
             self.fresh[k] = {"ok": a["st"] == "ok" and b["st"] == "ok", "files": files, "order": order, "lpp": lpp,
-                             "unstable": sorted(set(unstable)), "exc": a["exc"]}
+                             "unstable": sorted(set(unstable)), "exc": a["exc"], "obs": a}
             self.ctx.count(2)
+        if not siblings:
+            return
+        # a reference run that fails: does the same invocation succeed with another --file-mode?
+        sib = []
+        for k in two:
+            if not self.fresh[k]["ok"]:
+                lang, ns, copy, via, ok_ = k
+                o = {"fm": 0o644 if ok_[0] != 0o644 else 0o600, "no": ok_[1], "omit": ok_[2], "gs": ok_[3], "v": ok_[4]}
+                sib.append({"lang": lang, "ns": ns, "copy": copy, "via": via, "steps": [{"a": "run", "o": o, "style": 0}]})
+        if sib:
+            self.need_fresh(sib, siblings=False)
+        # the reference runs are histories of length one (empty directory): judged like every other run
+        keys = sorted(set(two) | {k for k in self.fresh if "judged" not in self.fresh[k]}, key=repr)
+        fstims, fobs = [], []
+        for k in keys:
+            self.fresh[k]["judged"] = True
+            lang, ns, copy, via, ok_ = k
+            o = {"fm": ok_[0], "no": ok_[1], "omit": ok_[2], "gs": ok_[3], "v": ok_[4]}
+            fstims.append({"lang": lang, "ns": ns, "copy": copy, "via": via, "steps": [{"a": "run", "o": o, "style": 0}], "src": "reference"})
+            fobs.append([self.fresh[k]["obs"]])
+        if tree_stamp() != self.stamp:
+            raise MachineryFailure("the tree under test (%s) changed while the check was running; run it again" % REPO)
+        self.judge(fstims, fobs, "empty-directory")
 
     # ---- jobs
     def job(self, hid, s):
@@ -645,6 +692,7 @@ class Campaign:
         recs = [{"id": rid0, "k": "begin", "post": []}]
         meta = [None]
         pre = {}
+        self._pre_ino = {}
         for i, (st, ob) in enumerate(zip(s["steps"], obs)):
             rid = rid0 + 1 + i
             snap = ob["snap"]
@@ -657,7 +705,7 @@ class Campaign:
                 stable = list(fr["files"])
                 rec = {"id": rid, "k": "run", "o": oj(st["o"]), "st": ob["st"], "post": post,
                        "fresh": [{"p": self.pid(lay, r), "c": self.intern(fr["files"][r][0]), "u": r in fr["unstable"]} for r in sorted(stable)],
-                       "fok": fr["ok"], "ord": [self.pid(lay, r) for r in fri["order"] if r in stable], "lpp": fri["lpp"], "priv": priv,
+                       "fok": self.satisfiable((s["lang"], s["ns"], s["copy"], s["via"], okey(st["o"]))), "rp": st["o"]["v"] in RP_VARIANTS, "ord": [self.pid(lay, r) for r in fri["order"] if r in stable], "lpp": fri["lpp"], "priv": priv,
                        "hasev": ob.get("ev") is not None,
                        "ev": [{"e": e[0], "p": self.pid(lay, e[1]), "a": e[2]} for e in (ob.get("ev") or []) if e[0] != "copyfile"],
                        "hasexp": False, "exp": [], "expst": "ok"}
@@ -672,6 +720,7 @@ class Campaign:
             recs.append(rec)
             meta.append((i, pre, snap))
             pre = snap
+            self._pre_ino = ob.get("ino") or {}
         return recs, meta
 
     def classify(self, s, o, pre, fr, ob):
@@ -682,6 +731,16 @@ class Campaign:
             c["no_overwrite:" + ("no-conflict" if not present else "all-present" if len(present) == len(gen) else "partially-populated")] += 1
         c["generate_support=" + o["gs"] + (",omit" if o["omit"] else "")] += 1
         c["status=" + ob["st"]] += 1
+        if o["v"] in RP_VARIANTS and not o["no"]:
+            prog = VARIANT_ARGS[o["v"]][1]
+            state = "empty-directory" if not present else "over-read-only-leftover" if any(not pre[r][1] & 0o200 for r in present) else "over-writable-leftover"
+            c["pp-run-program:%s,%s,file-mode=%o" % (prog, state, o["fm"])] += 1
+            ino = ob.get("ino") or {}
+            pino = self._pre_ino or {}
+            if any(r in pino and r in ino and pino[r] != ino[r] for r in gen):
+                c["pp-run-program:%s,inode-replaced" % prog] += 1
+            elif present:
+                c["pp-run-program:%s,inode-kept" % prog] += 1
         if o["no"]:
             return
         for r in gen:
@@ -831,10 +890,16 @@ def scripted():
         [R(v=4), R(v=0), R(v=4, fm=0o644), R(v=4, no=True), R(v=6), R(v=5), R()],
         [F(C, "short", 0o444), R(no=True), R(no=True, gs="never"), R(), R(v=2), R(v=0, no=True)],
     ]
+    # the file post-processor chain: --pp-run-program {in place, replace by rename, no-op} x --file-mode x {empty directory,
+    # regeneration over read-only / writable earlier output, --no-overwrite}
+    for prog in (4, 7, 8):
+        hs.append([R(v=prog), R(v=prog), R(v=prog, fm=0o644), R(v=prog, fm=0o600), R(v=prog), R(v=0), R(v=prog, style=1),
+                   R(v=prog, no=True), R(v=prog, fm=0o644, gs="only"), R(v=prog, gs="never")])
     out = []
     for lang in ("c", "cpp"):
         for i, h in enumerate(hs):
             out.append({"lang": lang, "ns": "small", "copy": True, "via": "inproc", "steps": h, "src": "scripted-%d" % i})
+    out.append({"lang": "c", "ns": "small", "copy": False, "via": "subproc", "steps": hs[-2][:5], "src": "scripted-replace-subproc"})
     for i in (0, 1, 4, 6):
         steps = [s for s in hs[i] if s.get("p") != C]
         out.append({"lang": "c", "ns": "small", "copy": False, "via": "subproc", "steps": steps, "src": "scripted-%d" % i})
@@ -911,7 +976,7 @@ def random_histories(ctx, sb, n):
             if x < 0.62 or not steps:
                 omit = rng.random() < 0.3
                 gs = rng.choice(["asneeded", "asneeded", "never", "only"] if omit else ["asneeded", "asneeded", "never", "only", "always"])
-                vs = [0, 0, 1, 2, 3, 4, 5, 6]
+                vs = [0, 0, 1, 2, 3, 4, 5, 6, 7, 8]
                 steps.append(R(fm=rng.choice(palette), no=rng.random() < 0.3, omit=omit, gs=gs,
                                v=rng.choice(vs), style=rng.randint(0, 3)))
             elif x < 0.8:
@@ -920,6 +985,13 @@ def random_histories(ctx, sb, n):
                 steps.append({"a": "chmod", "p": rng.choice(paths), "m": rng.choice(modes)})
             else:
                 steps.append({"a": "remove", "p": rng.choice(paths)})
+        if any(st["a"] == "run" and st["o"]["v"] == 7 for st in steps):
+            # an editor that saves atomically has to READ the file: keep every mode of this history owner-readable
+            for st in steps:
+                if st["a"] == "run" and not st["o"]["fm"] & 0o400:
+                    st["o"]["fm"] |= 0o400
+                elif "m" in st and not st["m"] & 0o400:
+                    st["m"] |= 0o400
         out.append({"lang": lang, "ns": ns, "copy": copy, "via": via, "steps": steps, "src": "random-%d" % i})
     return out
 
@@ -951,19 +1023,24 @@ def tree_stamp():
 def model_checks(ctx):
     for cfg, desc in ctx.pick(
             [("GenHistory", "files {support,type,type} modes {444,644} variants {plain,short} all options+environment, unbounded histories"),
-             ("GenHistory_copy", "files {support,copied support,type} modes {444,644} variants {plain,short}")],
+             ("GenHistory_copy", "files {support,copied support,type} modes {444,644} variants {plain,short}"),
+             ("GenHistory_pp", "files {support,type} modes {444,644} variants {plain, --pp-run-program in place / replace by rename / no-op}")],
             [("GenHistory_t3", "files {support,type,type} modes {444,644,600} variants {plain,short}"),
              ("GenHistory_t4", "files {support,copied support,type,type} modes {444,644} variants {plain,short}"),
              ("GenHistory_tv", "files {support,copied support,type} modes {444,644,600} variants {plain,long,short,trim}"),
-             ("GenHistory_tx", "files {support,type,unrelated} modes {444,644,600} variants {plain,short}")]):
+             ("GenHistory_tx", "files {support,type,unrelated} modes {444,644,600} variants {plain,short}"),
+             ("GenHistory_pp", "files {support,type} modes {444,644} variants {plain, --pp-run-program in place / replace by rename / no-op}")]):
         tlc.check_model(ctx, "GenHistory", cfg, constants=desc, timeout=3000)
     neg = []
-    for cfg, what in (("GenHistory_neg_chmod", "no chmod u+w gate"), ("GenHistory_neg_trunc", "open without truncation"),
-                      ("GenHistory_neg_copygate", "copied support file bypasses the overwrite gate")):
+    for cfg, what, inv in (("GenHistory_neg_chmod", "no chmod u+w gate", "RunEndOK"), ("GenHistory_neg_trunc", "open without truncation", "RunEndOK"),
+                           ("GenHistory_neg_copygate", "copied support file bypasses the overwrite gate", "RunEndOK"),
+                           ("GenHistory_neg_ppchain", "SetFileMode placed before the external program (unprivileged: in-place editor is refused)", "RunEndOK"),
+                           ("GenHistory_neg_ppchain_root", "SetFileMode placed before the external program (root: atomic save leaves the temp file's mode)",
+                            "RequestedMode")):
         r = tlc.run_tlc(tlc.SPECS / "GenHistory.tla", tlc.SPECS / (cfg + ".cfg"), ctx.scratch, timeout=600)
-        if r.violated != "RunEndOK":
+        if r.violated != inv:
             raise MachineryFailure("negative control '%s' was not refuted: %s %s" % (what, r.error, r.violated))
-        neg.append("%s: refuted by RunEndOK after %d states" % (what, r.distinct))
+        neg.append("%s: refuted by %s after %d states" % (what, inv, r.distinct))
     r = tlc.check_model(ctx, "GenHistory", "GenHistory_root", constants="Privileged=TRUE ChmodGate=FALSE (root caller: the gate is unobservable)")
     neg.append("root caller without the gate: passes (%d states) - hence the privilege drop" % r.distinct)
     ctx.cov["model_negative_controls"] = neg
@@ -1013,7 +1090,7 @@ def run(ctx):
     for lang in ("c", "cpp"):
         for copy in (False, True):
             steps = []
-            for v in (0, 1, 2, 3):
+            for v in (0, 1, 2, 3, 4, 7, 8):
                 for om in (False, True):
                     steps += [R(omit=om, gs="never", v=v)]
                 steps += [R(gs="only", v=v)]
@@ -1060,6 +1137,12 @@ def run(ctx):
         "--generate-support never": [k for k in cl if k.startswith("generate_support=never")],
         "copied support file over an existing file": [k for k in cl if k.startswith("kind:copied-support")],
     }
+    for prog in ("inplace", "replace", "noop"):
+        for state in ("empty-directory", "over-read-only-leftover", "over-writable-leftover"):
+            want["--pp-run-program (%s), %s" % (prog, state)] = [k for k in cl if k.startswith("pp-run-program:%s,%s" % (prog, state))]
+        want["--pp-run-program (%s) with --file-mode 0o444, 0o644 and 0o600" % prog] = \
+            [1] if all(any(k.startswith("pp-run-program:%s," % prog) and k.endswith("file-mode=%o" % m) for k in cl) for m in (0o444, 0o644, 0o600)) else []
+    want["atomic-save program really replaces the inode"] = [k for k in cl if k == "pp-run-program:replace,inode-replaced"]
     if sb.unpriv:
         want["read-only leftover overwritten by an unprivileged run"] = [k for k in cl if k.startswith("over:leftover,read-only")]
         want["read-only foreign file overwritten by an unprivileged run"] = [k for k in cl if k.startswith("over:foreign,read-only")]
@@ -1070,9 +1153,10 @@ def run(ctx):
     if unstable:
         ctx.not_exercised("content clause (only that one) for files whose fresh content is not reproducible between two runs into empty "
                           "directories: %s" % ", ".join(unstable[:6]))
-    bad_fresh = sorted({"%s %r" % (k[0], k[4]) for k, fr in camp.fresh.items() if not fr["ok"]})
+    bad_fresh = sorted({"%s %r" % (k[0], k[4]) for k, fr in camp.fresh.items() if not camp.satisfiable(k)})
     if bad_fresh:
-        ctx.not_exercised("options whose run into an empty directory fails (no successful run exists): %s" % "; ".join(bad_fresh[:4]))
+        ctx.not_exercised("options whose run into an empty directory fails for every --file-mode tried (no successful run exists): %s"
+                          % "; ".join(bad_fresh[:4]))
     if not sb.py_ok:
         ctx.not_exercised("py target (generation failed in warm-up)")
 
@@ -1086,8 +1170,10 @@ def run(ctx):
     ctx.cov["rule"] = ("one evaluation = one step (nnvg run or environment action) of a history in one output directory, snapshot after each; "
                        "spec->code: all 2-run%s histories over an option subset (16; thorough 56 resp. 16 options) + %d simulated %d-step behaviours of GenHistory.tla (all options, "
                        "Foreign/Chmod/Remove, 5 paths) replayed through nunavut.cli.main() as uid %s (1/%d of the pure-run histories through "
-                       "`python -m nunavut` subprocesses as root); code->spec: 32 scripted + seeded random histories (3-9 steps, c/cpp/py, 2 or 5 "
-                       "types, 12 modes, 7 content variants incl. --pp-run-program); distinct = (steps, language, namespace) digest; "
+                       "`python -m nunavut` subprocesses as root); code->spec: 39 scripted (incl. --pp-run-program {in-place editor, atomic-save editor, no-op} x "
+                       "--file-mode {444,644,600} x {empty directory, over read-only / writable earlier output, --no-overwrite}) + seeded random "
+                       "histories (3-9 steps, c/cpp/py, 2 or 5 types, 12 modes, 10 content variants); every reference run (same options, empty "
+                       "directory) is itself judged as a history of length one; distinct = (steps, language, namespace) digest; "
                        "non-trivial = every history (all have at least one run over a non-empty directory or an environment action)"
                        % (ctx.pick("", " and 3-run"), nsim, ctx.pick(5, 6), "65534 (unprivileged)" if sb.unpriv else "0 (root!)", ctx.pick(12, 9)))
     ctx.cov["exhaustive"] = False
